@@ -1,7 +1,163 @@
-//! C12 — not built yet (stub keeps the registry stable while modules are written in parallel).
+//! C12 — long-running programs do not accumulate closures or heap objects.
 
-use crate::engine::case::Prop;
+use crate::engine::case::*;
+use crate::engine::panics;
+use crate::engine::rng::hash64;
+use crate::engine::tape::Gen;
+use crate::gens::prog::{self, Layout, PG};
+use crate::props::c01::{self, gen_inputs, line_candidates};
+use crate::runners::exec::{self, Exec, Inputs, RunOpts};
+use serde_json::{json, Value};
+
+pub struct C12;
 
 pub fn prop() -> Option<&'static dyn Prop> {
-    None
+    Some(&C12)
+}
+
+struct Out {
+    fail: Option<(String, String)>,
+    discard: Option<String>,
+    max_closures: usize,
+}
+
+fn check(src: &str, inputs: &Inputs, n: u64) -> Out {
+    let mut o = Out { fail: None, discard: None, max_closures: 0 };
+    let _ = panics::take_invalid_handle_warnings();
+    let r = exec::run_vm(src, inputs, &RunOpts { n: 2 * n, sched: false, want_state: false, want_counts: true, want_trace: false });
+    let warnings = panics::take_invalid_handle_warnings();
+    match r {
+        Exec::Rejected(_) | Exec::NoIo => o.discard = Some("not-compilable".into()),
+        Exec::Error(s, e) => o.discard = Some(format!("error:{s}:{e}")),
+        Exec::Panic(stage, p) => {
+            if p.msg.contains("closure handle used after release") || p.msg.contains("Invalid Closure Id") {
+                o.fail = Some(("c12:stale-closure-handle".into(), format!("{stage}: {}", p.describe())));
+            } else {
+                o.discard = Some(format!("crash:{}", panics::normalise(&p.msg))); // C03's subject
+            }
+        }
+        Exec::Ran(a) => {
+            if warnings > 0 {
+                o.fail = Some(("c12:invalid-heap-handle".into(), format!("{warnings} retain/release calls on an invalid heap handle")));
+                return o;
+            }
+            let c = &a.counts;
+            o.max_closures = c.iter().map(|x| x.0).max().unwrap_or(0);
+            let (n1, n2) = ((n - 1) as usize, (2 * n - 1) as usize);
+            if c.len() > n2 {
+                if c[n1].0 != c[n2].0 {
+                    let k = if c[n2].0 > c[n1].0 { "closures-grow" } else { "closures-not-steady" };
+                    o.fail = Some((format!("c12:{k}"), format!("live closures after sample {}: {}, after sample {}: {} (first samples: {:?})", n1 + 1, c[n1].0, n2 + 1, c[n2].0, &c[..6.min(c.len())])));
+                } else if c[n1].1 != c[n2].1 {
+                    let k = if c[n2].1 > c[n1].1 { "heap-grows" } else { "heap-not-steady" };
+                    o.fail = Some((format!("c12:{k}"), format!("live heap objects after sample {}: {}, after sample {}: {} (first samples: {:?})", n1 + 1, c[n1].1, n2 + 1, c[n2].1, &c[..6.min(c.len())])));
+                }
+            }
+        }
+    }
+    o
+}
+
+fn finish(src: &str, inputs: &Inputs, n: u64, classes: Vec<String>, allocs: bool, cx: &Cx) -> CaseResult {
+    let key = format!("{src}\u{1}{}\u{1}{n}", inputs.describe());
+    let hash = hash64(key.as_bytes());
+    let direct = json!({"text": src, "input_kind": inputs.kind, "input_scale": inputs.scale, "n": n});
+    if cx.dry {
+        let mut r = CaseResult::discard("dry");
+        r.render = Some(direct.clone());
+        r.direct = Some(direct);
+        return r;
+    }
+    let o = check(src, inputs, n);
+    if let Some(w) = o.discard {
+        return CaseResult::discard(w);
+    }
+    let mut r = match &o.fail {
+        Some((s, m)) => CaseResult::fail(hash, s.clone(), m.clone()),
+        None => CaseResult::held(hash),
+    };
+    r.classes = classes;
+    if allocs {
+        r.classes.push("allocates-per-sample".into());
+    }
+    if o.max_closures > 0 {
+        r.classes.push("has-live-closures".into());
+    }
+    r.nontrivial = allocs || r.is_fail();
+    if cx.render || r.is_fail() {
+        r.render = Some(direct.clone());
+    }
+    r.direct = Some(direct);
+    r
+}
+
+/// per-sample closure instances made by a maker function leak (known finding): switch
+pub const KF_MAKER_LEAK: &str = "C12-closure-from-maker-call-leaks";
+/// a lambda passed as an argument to a function is never released (known finding): switch
+pub const KF_ARG_LEAK: &str = "C12-closure-argument-leaks";
+
+impl Prop for C12 {
+    fn id(&self) -> &'static str {
+        "C12"
+    }
+    fn spaces(&self, tier: Tier) -> Vec<Space> {
+        match tier {
+            Tier::Quick => vec![Space { name: "gen", size: 6000, exhaustive: false, chunk: 200, case_timeout_s: 60.0, what: "generated programs that create closures per sample (lambdas, local closures, lambdas passed to higher-order functions, maker calls) x run length 2N" }],
+            Tier::Thorough => vec![Space { name: "gen", size: 150_000, exhaustive: false, chunk: 1000, case_timeout_s: 60.0, what: "generated programs that create closures per sample x run length 2N" }],
+        }
+    }
+    fn run(&self, _space: &str, _index: u64, g: &mut Gen, cx: &Cx) -> CaseResult {
+        let (mut cfg, off) = c01::pcfg(cx);
+        // WASM-only switches are irrelevant here
+        cfg.modulo = true;
+        cfg.multi_maker_instances = true;
+        cfg.capture_destructured = true;
+        cfg.makers_in_dsp = !cx.excluded(KF_MAKER_LEAK);
+        if cx.excluded(KF_ARG_LEAK) {
+            cfg.hof = false;
+        }
+        let mut pg = PG::new(g, cfg);
+        let p = pg.program();
+        let feat = pg.feat.clone();
+        let src = prog::render(&p, &Layout::default());
+        let inputs = gen_inputs(g);
+        let n = *g.pick(&[32u64, 16, 64]);
+        let allocs = feat.closures_local > 0 || feat.hof_calls > 0 || feat.pipes > 0;
+        let mut r = finish(&src, &inputs, n, feat.classes(), allocs, cx);
+        for id in off {
+            r.count(&format!("generator_switch_off:{id}"), 1);
+        }
+        if cx.excluded(KF_MAKER_LEAK) {
+            r.count(&format!("generator_switch_off:{KF_MAKER_LEAK}"), 1);
+        }
+        if cx.excluded(KF_ARG_LEAK) {
+            r.count(&format!("generator_switch_off:{KF_ARG_LEAK}"), 1);
+        }
+        r
+    }
+    fn run_direct(&self, input: &Value, cx: &Cx) -> Option<CaseResult> {
+        let t = input.get("text")?.as_str()?;
+        let inputs = Inputs { kind: input.get("input_kind").and_then(|v| v.as_u64()).unwrap_or(1) as u8, scale: input.get("input_scale").and_then(|v| v.as_f64()).unwrap_or(1.0) };
+        let n = input.get("n").and_then(|v| v.as_u64()).unwrap_or(16);
+        Some(finish(t, &inputs, n, vec![], true, cx))
+    }
+    fn shrink_direct(&self, input: &Value) -> Vec<Value> {
+        let Some(t) = input.get("text").and_then(|v| v.as_str()) else { return vec![] };
+        let mut out = vec![];
+        for s in line_candidates(t).into_iter().chain(crate::engine::shrink::text_candidates(t)) {
+            let mut v = input.clone();
+            v["text"] = json!(s);
+            out.push(v);
+        }
+        out
+    }
+    fn rule(&self) -> String {
+        "Cases are (program, input stream, N in {16,32,64}). Programs from the core-language generator with per-sample allocation: lambdas applied in place, local closures, lambdas passed to higher-order functions, closures created at global scope by maker functions. Oracle (VM): run 2N samples; Machine.closures.len() and Machine.heap.len() after sample N must equal those after sample 2N; no `closure handle used after release` assertion (hook) and no `invalid HeapIdx` retain/release warning. Non-trivial = the program creates at least one closure per sample (by construction); distinct by source+inputs+N.".into()
+    }
+    fn assumptions(&self) -> Vec<String> {
+        vec!["only the VM is observed (the WASM runtime has no comparable counters)".into(), "boxed recursive variants and scheduled tasks are not generated here".into()]
+    }
+    fn required_classes(&self, _tier: Tier) -> Vec<&'static str> {
+        vec!["allocates-per-sample", "has-live-closures", "f:local-closure", "f:maker-closure"]
+    }
 }
